@@ -56,4 +56,7 @@ var props = map[string]propCfg{
 	"C18": one(part{Pkg: "./props/static", Test: "TestC18",
 		Quick:    tierCfg{Cases: 120, Shards: 8, Timeout: 10 * min, ShrinkTime: 30 * sec},
 		Thorough: tierCfg{Cases: 3000, Shards: 14, Timeout: 60 * min, ShrinkTime: 5 * min}}),
+	"C19": one(part{Pkg: "./props/static", Test: "TestC19",
+		Quick:    tierCfg{Cases: 64, Shards: 8, Timeout: 10 * min, ShrinkTime: 30 * sec},
+		Thorough: tierCfg{Cases: 800, Shards: 14, Timeout: 60 * min, ShrinkTime: 5 * min}}),
 }
